@@ -86,6 +86,12 @@ def corpus(ctx, rng):
             items.append(("option", o.build() + rng.choice([b"", rng.randbytes(4)]), 0))
         except Exception:
             pass
+        if i % 3 == 0:      # one endpoint (address, protocol, port) in options of all three kinds, and every IP option body under every type
+            a4, p4 = rng.randbytes(4), rng.randbytes(2)
+            a6 = rng.randbytes(16)
+            for tcode in (0x04, 0x14, 0x24, 0x06, 0x16, 0x26):
+                items.append(("option", b"\x00\x09" + bytes([tcode, 0]) + a4 + b"\x00\x11" + p4, 0))
+                items.append(("option", b"\x00\x15" + bytes([tcode, 0]) + a6 + b"\x00\x11" + p4, 0))
         nc = noncanonical_sd(rng)                          # single options of the independent encoder
         ol = int.from_bytes(nc[8 + int.from_bytes(nc[4:8], "big"):][:4], "big")
         if ol:
